@@ -7,7 +7,7 @@ EXTENDS Regex, SequencesExt, Json, TLC
 CONSTANTS Tier, OutFile
 
 ca == 97  cb == 98  c1 == 49
-Atoms == { RC(ca), RC(cb), RDot, RSet(FALSE, <<SC(ca), SC(cb)>>), RSet(TRUE, <<SC(ca)>>), RSet(FALSE, <<SR(ca, cb), SC(c1)>>),
+Atoms == { RC(ca), RC(cb), RC(46), RC(42), RDot, RSet(FALSE, <<SC(ca), SC(cb)>>), RSet(TRUE, <<SC(ca)>>), RSet(FALSE, <<SR(ca, cb), SC(c1)>>),
            REsc("d"), REsc("s"), REsc("D"), REsc("S") }
 AtomsCore == { RC(ca), RC(cb), RDot, RSet(FALSE, <<SC(ca), SC(cb)>>), REsc("d") }
 Quants == { <<0, -1>>, <<1, -1>>, <<0, 1>>, <<2, 2>>, <<1, 2>>, <<2, -1>>, <<0, 2>> }
@@ -44,7 +44,7 @@ Regexes ==
   \cup {<<RC(ca), REol, RSet(TRUE, <<SC(ca)>>), RBol, RC(cb)>>}
 
 Uses(rs, c) == \E i \in 1..Len(rs) : rs[i].k = "resc" \/ (rs[i].k = "rq" /\ rs[i].atom.k = "resc")
-Sigma(rs) == {ca, cb, c1, 32, 10}
+Sigma(rs) == {ca, cb, c1, 32, 10} \cup (IF \E i \in 1..Len(rs) : rs[i] \in {RC(46), RC(42)} \/ (rs[i].k = "rq" /\ rs[i].atom \in {RC(46), RC(42)}) THEN {46, 42} ELSE {})
 
 FindAllAt == <<102, 105, 110, 100, 32, 97, 108, 108, 32, 64, 47>>     \* "find all @/"
 MkRegexCase(id, rs) ==
